@@ -194,7 +194,7 @@ def run_cyclic(ctx, n):
             rng = ctx.rng("lae-cyc", i)
             args, is_int = rand_cyclic_err(rng)
             k = rng.choice([1, 2, 2, 3])
-            args = dict(args, k=k, solver_options=dict(errlib.SOLVER))
+            args = dict(args, k=k, solver_options=dict(errlib.SOLVER, time_limit=8))   # random cyclic instances: a hard MILP is counted as unsolved:kTimeLimit, not waited for
             cur["args"] = args
             try:
                 m = fp.kLeastAbsErrorsCycles(**errlib.clean_args(args)); m.solve()
